@@ -29,6 +29,17 @@ def _eq(a, b):
     return r.e if isinstance(r, SBool) else z3.BoolVal(bool(r))
 
 
+NUMERIC_ATTRS = ("rounds", "ident", "variant", "version", "block_size", "parallelism", "type", "salt_size", "size", "algs")
+
+
+def _veq(a, b):
+    """equality of two parsed settings as a term"""
+    if isinstance(a, (str, SStr)) and isinstance(b, (str, SStr)) or isinstance(a, (bytes, SBytes)) and isinstance(b, (bytes, SBytes)):
+        return _eq(a, b)
+    r = (a == b)
+    return r.e if isinstance(r, SBool) else z3.BoolVal(bool(r))
+
+
 def _lower(x):
     return SStr.lift(x).lower() if isinstance(x, (str, SStr)) else x
 
@@ -45,12 +56,22 @@ def ob_parse_render(name, tindex, positions):
     hexish = name in ("lmhash", "nthash", "mssql2000", "mssql2005", "oracle10", "oracle11", "mysql323", "mysql41", "postgres_md5",
                       "msdcc", "msdcc2", "hex_md4", "hex_md5", "hex_sha1", "hex_sha256", "hex_sha512", "cisco_type7", "htdigest",
                       "bsd_nthash", "grub_pbkdf2_sha512", "cisco_pix", "cisco_asa")
+    try:
+        orig = H.from_string(t)
+    except Exception:
+        orig = None
+    # formats that write their cost in hex: the letter case of that field is a documented normalisation
+    ident = getattr(base, "ident", None)
+    hexfield = range(0, 0)
+    if base.name in ("cta_pbkdf2_sha1", "dlitz_pbkdf2_sha1") and isinstance(ident, str) and t.startswith(ident) and "$" in t[len(ident):]:
+        hexfield = range(len(ident), t.index("$", len(ident)))
     for pos in positions:
         if pos >= len(t):
             continue
         ch = z3.BitVec("c", 21)
         valid_cp = z3.And(z3.ULE(ch, 0x10FFFF), z3.Or(z3.ULT(ch, 0xD800), z3.UGT(ch, 0xDFFF)))
         m = SStr(list(t[:pos]) + [ch] + list(t[pos + 1:]))
+        hexrounds = pos in hexfield
 
         def run():
             sym.assume(valid_cp)
@@ -61,8 +82,10 @@ def ob_parse_render(name, tindex, positions):
             if getattr(inst, "checksum", "x") is None:
                 return ("config-string",)      # settings without a digest: not a hash of anything (some formats normalise these on purpose)
             out = inst.to_string()
-            low = (SStr.lift(out).lower(), m.lower()) if hexish and isinstance(out, (str, SStr)) else None
-            return ("accepted", out, low)
+            low = (SStr.lift(out).lower(), m.lower()) if (hexish or hexrounds) and isinstance(out, (str, SStr)) else None
+            # the non-salt settings as parsed, next to those of the unmodified string (terms, compared in the claim)
+            nums = [(getattr(inst, a, None), getattr(orig, a, None)) for a in NUMERIC_ATTRS] if orig is not None else None
+            return ("accepted", out, low, nums)
         try:
             with patched(*triples):
                 paths = explore(run, max_paths=400)
@@ -87,19 +110,29 @@ def ob_parse_render(name, tindex, positions):
                 continue
             out = p.result[1]
             claim = _eq(out, m)
-            if hexish and p.result[2] is not None:
+            if (hexish or hexrounds) and p.result[2] is not None:
                 claim = z3.Or(claim, _eq(p.result[2][0], p.result[2][1]))
+            if base.name in c08.AB64 and isinstance(out, (str, SStr)) and len(out) == len(m):
+                # documented: ab64_decode "supports decoding normal +/ altchars as well"; '+' is read as '.' and written back as '.'
+                dotted = SStr(list(t[:pos]) + ["."] + list(t[pos + 1:]))
+                claim = z3.Or(claim, z3.And(ch == ord("+"), _eq(out, dotted)))
             if base.name.startswith("bcrypt") or "bcrypt" in name:
                 # padding-bit repair of the last salt / digest character is documented
                 claim = z3.Or(claim, z3.BoolVal(isinstance(out, (str, SStr)) and len(out) == len(m)) if pos in _bcrypt_pad_positions(t) else claim)
-            if isinstance(out, (str, SStr)) and len(out) == len(m) and (pos + 1 == len(t) or t[pos + 1] in "$,|}" or t[pos] == "="):
-                # documented padding-bit repair: the last symbol of an unpadded base64 field may be canonicalised
+            if isinstance(out, (str, SStr)) and len(out) == len(m) and (pos + 1 == len(t) or t[pos + 1] in "$,|}" or t[pos] == "=") \
+                    and p.result[3] is not None:
+                # documented padding-bit repair: the last symbol of an unpadded base64 field may be canonicalised.  Only
+                # salt/digest fields are base64: every other setting must have been read as in the unmodified string
                 o = SStr.lift(out)
-                claim = z3.Or(claim, z3.And(_eq(SStr(o.c[:pos]), SStr(m.c[:pos])), _eq(SStr(o.c[pos + 1:]), SStr(m.c[pos + 1:]))))
+                same = z3.And(*[_veq(a, b) for a, b in p.result[3]])
+                claim = z3.Or(claim, z3.And(same, _eq(SStr(o.c[:pos]), SStr(m.c[:pos])), _eq(SStr(o.c[pos + 1:]), SStr(m.c[pos + 1:]))))
             r, mdl = check(p.cond(), z3.Not(claim), timeout_ms=20000)
             if r == "sat":
                 bad = ("accepted but re-rendered differently", p, mdl)
                 break
+            if r != "unsat":
+                results.append(inconclusive("solver answered %s (%s) on an accepting path" % (r, mdl),
+                                            name="%s[#%d,@%d]" % (name, tindex, pos)))
         if bad:
             p, mdl = bad[1], bad[2]
             if mdl is None:
@@ -111,9 +144,11 @@ def ob_parse_render(name, tindex, positions):
                                      {"module": "harness.c07", "func": "replay_parse_render", "args": {"name": name, "text": mutated}},
                                      name="%s[#%d,@%d]" % (name, tindex, pos)))
             break
-    if not any(r["status"] == "violation" for r in results):
+    undecided = set(r.get("name") for r in results if r["status"] != "violation")
+    decided = len([q for q in positions if q < len(t)]) - len(undecided)
+    if not any(r["status"] == "violation" for r in results) and decided > 0:
         results.append(ok("%s template %d: any code point at %d positions: accepted strings re-render identically (or to their "
-                          "documented canonical form); %d paths" % (name, tindex, len(positions), npaths), paths=npaths,
+                          "documented canonical form); %d paths" % (name, tindex, decided, npaths), paths=npaths,
                           name="%s[#%d]" % (name, tindex)))
     return results
 
@@ -417,6 +452,19 @@ def replay_parsehash(name):
             obj = base.from_string(H._unwrap_hash(h) if hasattr(H, "_unwrap_hash") else h)
         except Exception as e:
             return "%s.parsehash(%r) raises %r" % (name, h, e)
+        # the settings reported by parsing are the ones the hash was made with, and the string renders back
+        for key, want in v.items():
+            got = len(obj.salt) if key == "salt_size" else getattr(obj, key, None)
+            if key == "salt" and name == "cisco_type7":
+                got = obj.salt
+            if got != want:
+                return "%s: hash %r made with %s=%r parses as %s=%r" % (name, h, key, want, key, got)
+        try:
+            back = obj.to_string()
+        except Exception as e:
+            return "%s.from_string(%r).to_string() raises %r" % (name, h, e)
+        if back != (H._unwrap_hash(h) if hasattr(H, "_unwrap_hash") else h):
+            return "%s: %r re-renders as %r" % (name, h, back)
         always = set(getattr(obj, "_always_parse_settings", ()))
         for key in getattr(obj, "_parsed_settings", ()):
             val = getattr(obj, key)
@@ -592,9 +640,11 @@ def run(tier, seed, t0, only=None):
     obs = []
     for n in sel:
         H, tmpls = c08.templates(n)
-        for ti, t in enumerate(tmpls[:(1 if tier == "quick" else 3)]):
+        for ti, t in enumerate(tmpls[:(2 if tier == "quick" else 4)]):
             ps = c08.positions_for(t, tier, seed)
             ps = [p for p in ps if p < len(t)]
+            if tier == "quick" and ti:
+                ps = [q for q in ps if q < 28]       # further idents: the structural part, where they differ
             for i in range(0, len(ps), 30):
                 obs.append(Ob("parse-render[%s#%d,%d..]" % (n, ti, ps[i]), ob_parse_render,
                               {"name": n, "tindex": ti, "positions": ps[i:i + 30]}, timeout=1800))
